@@ -81,7 +81,7 @@ theorem QInv.progress (b : QBeh) {c : QCfg} (h : QInv c) (hne : c.stack ≠ []) 
       cases hk with
       | nil => simp only [QCfg.step, hst, Option.isSome_some]
       | filt hr => simp only [QCfg.step, hst]; split <;> rfl
-      | iter hr => simp only [QCfg.step, hst, Option.isSome_some]
+      | iter hr => simp only [QCfg.step, hst]; split <;> rfl
       | @pred mode s rest kept idle k k' hk' hm =>
         have hf : (⟨s :: rest, kept, idle⟩ : PFrame) ∈ (view c).frames :=
           mem_procFrames (mode := mode) (ph := .pred) (by rw [hst]; simp)
